@@ -357,6 +357,27 @@ def rule_target(P):
                 r.inst((f.name, el.n, "reset"), {"fn": f.name, "site": el.where(), "reset_under_owner_test": ok})
                 if not ok:
                     r.bad("K4:%s:handler-target-reset-unguarded" % f.name, el.where(), f.name, "%s resets the handler target although this base may not own it" % show(el.e))
+    # state that the signal handler itself keeps between deliveries (file-scope variables it writes, other than the target pair): it describes the signalling socket, and has to start
+    # afresh whenever that socket does - in evsig_init_ (every new socket pair: new base, event_reinit in a forked child), or in every function that closes the pair
+    h = P.fns.get("evsig_handler")
+    if h is not None:
+        gw = set()
+        for el, lhs, op, rhs in h.stores():
+            rv = root_var(lhs)
+            if rv is not None and rv[2] not in ("local", "param") and rv[1] not in ("evsig_base", "evsig_base_fd", "errno"):
+                gw.add(rv[1])
+        closers = [g for g in P.all_fns if any(callee_name(c.e) == "evutil_closesocket" and any(is_e(q, "fld") and q[2].endswith("ev_signal_pair") for q in walk(c.e)) for c in g.calls())]
+        for name in sorted(gw):
+            def writes(g):
+                return any(root_var(lh) is not None and root_var(lh)[1] == name for e2, lh, o2, r2 in g.stores()) or \
+                    any(callee_name(c.e) in ("memset", "__builtin_memset", "__builtin___memset_chk") and any(is_e(q, "var") and q[1] == name for q in walk(c.e[2][0])) for c in g.calls())
+            init = P.fns.get("evsig_init_")
+            ok = (init is not None and writes(init)) or (closers and all(writes(g) for g in closers))
+            r.inst(("handler-state", name), {"variable": name, "written_by": "evsig_handler", "reset_with_the_socket": bool(ok), "socket_closers": [g.name for g in closers]})
+            if not ok:
+                r.bad("K5:evsig_handler:state-outlives-socket:%s" % name, "%s:%d" % (h.file, h.line), h.name,
+                      "the handler keeps state in %s between deliveries, but neither evsig_init_ nor every function that closes the signalling socket resets it: after the base is freed or "
+                      "re-initialised in a forked child the stale value decides what the handler does for a new socket" % name)
     return r
 
 
